@@ -44,6 +44,7 @@ fn dispatch_run(prop: &'static str, tier: &str) -> i32 {
     match prop {
         "C01" | "C02" => props::roundtrip::run(prop, tier),
         "C03" => props::tamper::run(tier),
+        "C08" => props::spec::run(tier),
         "C09" => props::nopanic::run(tier),
         "C04" => props::binding::run_c04(tier),
         "C05" => props::binding::run_c05(tier),
@@ -57,6 +58,7 @@ fn dispatch_replay(prop: &'static str, case: &serde_json::Value) -> i32 {
     match prop {
         "C01" | "C02" => props::roundtrip::replay(prop, case),
         "C03" => props::tamper::replay(case),
+        "C08" => props::spec::replay(case),
         "C09" => props::nopanic::replay(case),
         "C04" | "C05" | "C06" | "C07" => props::binding::replay(prop, case),
         _ => report::machinery_error("unknown property"),
